@@ -117,6 +117,107 @@ theorem tinv_run {pre as : List Action} {s s' : State} (hi : Inv idOf s) (ht : T
       simpa using this
     · cases h
 
+
+/-! ### first answer wins -/
+
+/-- the id of the answer an action delivers, if it delivers one -/
+def delivId : Action → Option Id
+  | .deliver _ (.answer id _) => some id
+  | _ => none
+
+/-- `register k` occurs in `as` and no answer carrying k's id is delivered after it -/
+def Fresh (as : List Action) (k : Nat) : Prop :=
+  ∃ pre mid, as = pre ++ Action.register k :: mid ∧ ∀ a ∈ mid, delivId a ≠ some (idOf k)
+
+/-- in `as`: `register k`, then NO delivered answer with k's id, then the delivery of `(idOf k, good b)` -/
+def FirstDelivered (as : List Action) (k : Nat) (b : Payload) : Prop :=
+  ∃ pre mid c post, as = pre ++ Action.register k :: mid ++ Action.deliver c (.answer (idOf k) (.good b)) :: post ∧
+    ∀ a ∈ mid, delivId a ≠ some (idOf k)
+
+theorem Fresh.new (as : List Action) (k : Nat) : Fresh idOf (as ++ [Action.register k]) k :=
+  ⟨as, [], rfl, by simp⟩
+
+theorem Fresh.mono {as : List Action} {k : Nat} (h : Fresh idOf as k) (a : Action) (ha : delivId a ≠ some (idOf k)) :
+    Fresh idOf (as ++ [a]) k := by
+  obtain ⟨pre, mid, e, hm⟩ := h
+  refine ⟨pre, mid ++ [a], by simp [e], ?_⟩
+  intro x hx
+  rcases List.mem_append.mp hx with hx | hx
+  · exact hm x hx
+  · simp at hx; subst hx; exact ha
+
+theorem FirstDelivered.now {as : List Action} {k : Nat} (h : Fresh idOf as k) (c : Nat) (b : Payload) :
+    FirstDelivered idOf (as ++ [Action.deliver c (.answer (idOf k) (.good b))]) k b := by
+  obtain ⟨pre, mid, e, hm⟩ := h
+  exact ⟨pre, mid, c, [], by simp [e], hm⟩
+
+theorem FirstDelivered.mono {as : List Action} {k : Nat} {b : Payload} (h : FirstDelivered idOf as k b) (a : Action) :
+    FirstDelivered idOf (as ++ [a]) k b := by
+  obtain ⟨pre, mid, c, post, e, hm⟩ := h
+  exact ⟨pre, mid, c, post ++ [a], by simp [e], hm⟩
+
+structure FInv (as : List Action) (s : State) : Prop where
+  f1 : ∀ id k, s.queries id = some k → Fresh idOf as k
+  f2 : ∀ c k b, (s.conn c).pending = some (k, b) → FirstDelivered idOf as k b
+  f3 : ∀ k b, s.chan k = some b → FirstDelivered idOf as k b
+  f4 : ∀ k b, (s.pc k = .returning (.ok b) ∨ s.pc k = .returned (.ok b)) → FirstDelivered idOf as k b
+
+theorem finv_init : FInv idOf [] init := by
+  constructor <;> simp [init]
+
+theorem finv_step {as : List Action} {s s' : State} {a : Action} (hi : Inv idOf s) (ht : FInv idOf as s)
+    (h : step idOf nConn s a = some s') : FInv idOf (as ++ [a]) s' := by
+  obtain ⟨ha, hb, hc, he, hf, hg⟩ := hi
+  obtain ⟨f1, f2, f3, f4⟩ := ht
+  have fmono : ∀ k, Fresh idOf as k → delivId a ≠ some (idOf k) → Fresh idOf (as ++ [a]) k :=
+    fun k h h' => h.mono idOf a h'
+  have fnew : ∀ k, a = Action.register k → Fresh idOf (as ++ [a]) k := by
+    intro k e; subst e; exact Fresh.new idOf as k
+  have dmono : ∀ k b, FirstDelivered idOf as k b → FirstDelivered idOf (as ++ [a]) k b := fun k b h => h.mono idOf a
+  have dnow : ∀ c id k b, a = Action.deliver c (.answer id (.good b)) → idOf k = id → Fresh idOf as k →
+      FirstDelivered idOf (as ++ [a]) k b := by
+    intro c id k b e hid hr; subst e; subst hid; exact FirstDelivered.now idOf hr c b
+  generalize as ++ [a] = as' at *
+  cases a <;> simp only [step] at h <;> (repeat' split at h) <;> (try cases h) <;>
+    (constructor <;> (try simp only [set_apply, delivId] at *) <;>
+      first
+      | assumption
+      | grind [reconnectBody])
+
+theorem finv_run {pre as : List Action} {s s' : State} (hi : Inv idOf s) (ht : FInv idOf pre s)
+    (h : run idOf nConn s as = some s') : FInv idOf (pre ++ as) s' := by
+  induction as generalizing s pre with
+  | nil => simp only [run] at h; cases h; simpa using ht
+  | cons a as ih =>
+    simp only [run] at h
+    split at h
+    · next s1 h1 =>
+      have := ih (inv_step idOf nConn hi h1) (finv_step idOf nConn hi ht h1) h
+      simpa using this
+    · cases h
+
+
+/-! ### progress -/
+
+/-- number of own steps a call still has to take at most -/
+def Pc.rank : Pc → Nat
+  | .start => 5
+  | .registered => 4
+  | .picked _ => 3
+  | .waiting => 2
+  | .returning _ => 1
+  | .returned _ => 0
+
+/-- connected, writable, and being read -/
+def Healthy (cn : Conn) : Prop := cn.status = .connected ∧ cn.sockOk = true ∧ cn.reader = true
+
+/-- the steps that bring a connection back: its socket reports the failure, a Send of the ping goroutine fails
+(unless a failed Send already spawned a reconnect), the spawned reconnect() runs, the new handshake succeeds -/
+def recovery (cn : Conn) (c : Nat) : List Action :=
+  if cn.status = .connecting then [.reconnectOk c]
+  else (if cn.sockOk then [.sockDead c] else []) ++ (if cn.spawned > 0 then [] else [.pingFail c]) ++
+    [.reconnectStart c, .reconnectOk c]
+
 /-! ### program-counter facts along a trace -/
 
 def PcInv (as : List Action) (s : State) : Prop :=
